@@ -2,6 +2,8 @@
 #include "core.h"
 #include <limits>
 
+#include <filesystem>
+
 namespace A {
 
 static void note_sig(Ctx &c, const Op &op, const char *extra) {
@@ -195,7 +197,7 @@ bool exec_ss(Ctx &c, const Op &op) {
     case SS_SHL_TEXT: {
         SsObj *o = pick(v, op.a);
         if (!o) { c.skipped = true; return true; }
-        unsigned form = op.d % 17;
+        unsigned form = op.d % 18;
         char e[32]; std::snprintf(e, sizeof e, "%s,form=%u%s", mode(o), form, (op.fault & F_CORRUPT) ? ",corrupted" : ""); note_sig(c, op, e);
         bool corrupt = (op.fault & F_CORRUPT) != 0;
         // narrow forms store bytes as given; wide forms transcode (and may reject corrupted input)
@@ -224,9 +226,14 @@ bool exec_ss(Ctx &c, const Op &op) {
         case 7: case 12: wide = true; if (corrupt) corrupt_units<char16_t>(n16, op.fc); expect = utf8_of32(u16_to32(n16)); break;
         case 3: wide = true; if (corrupt) corrupt_units<char32_t>(n32, op.fc); expect = utf8_of32(cut_at_nul(n32)); break;
         case 8: case 13: wide = true; if (corrupt) corrupt_units<char32_t>(n32, op.fc); expect = utf8_of32(n32); break;
+        case 17: {   // std::filesystem::path: the stream gets the path's native bytes as they are - repeated and trailing separators included
+            n8 = cut_at_nul(n8); for (size_t i = 3; i < n8.size(); i += 7) n8[i] = '/';
+            if (op.c & 1) n8.insert(n8.size() / 2, "//"); if (op.c & 2) n8 = "//" + n8; if (op.c & 4) n8 += "///";
+            expect = n8; break; }
         default: expect.clear(); break;      // 15, 16: null pointers append nothing
         }
         std::u8string n8u((const char8_t *)n8.data(), n8.size());
+        std::filesystem::path fpath; if (form == 17) fpath = std::filesystem::path(n8u);
         do_append(c, op, o, expect, wide && corrupt, wide && corrupt, [&] {
             ST::string_stream &s = *o->p();
             switch (form) {
@@ -246,6 +253,7 @@ bool exec_ss(Ctx &c, const Op &op) {
             case 13: s << std::u32string_view(n32); break;
             case 14: s << std::u8string_view(n8u); break;
             case 15: s << (const char *)nullptr; break;
+            case 17: s << fpath; break;
             default: s << (const wchar_t *)nullptr; s << (const char16_t *)nullptr; s << (const char32_t *)nullptr; break;
             }
         });
